@@ -1,4 +1,4 @@
-CONSTANTS MaxLen = 1 Keys = {0, 5, 43, 127} BADCTR = TRUE
+CONSTANTS MaxLen = 1 Keys = {0, 5, 43, 127} LocalMax = 5 BADCTR = TRUE
 INIT Init
 NEXT Next
 INVARIANT Inv
